@@ -250,7 +250,10 @@ static std::vector<DLayout> gDL;
 
 static void init_headers()
 {
-    std::vector<std::string> media = { "text", "/", "*", "html", "json", "+", "xml", ";", "q", "=", "0", ".", "5", "1", " ", ",", "vnd.", "a", "charset" };
+    // (the composite token brings the quality value within reach of short sequences; nan / inf / e / x / - are what a
+    // general number reader such as strtod accepts beyond decimal digits)
+    std::vector<std::string> media = { "text", "/", "*", "html", "json", "+", "xml", ";", "q", "=", "0", ".", "5", "1", " ", ",", "vnd.", "a", "charset",
+                                       "text/html;q=", "nan", "inf", "e", "x", "-", "9" };
     std::vector<std::string> cache = { "max-age", "min-fresh", "s-maxage", "no-cache", "public", "=", ",", " ", "0", "9", "99999999999999999999", "-", "x" };
     std::vector<std::string> cookie = { "a", "=", "1", ";", " ", "Path", "Max-Age", "Expires", "Secure", "HttpOnly", "Domain", "x", "2147483648", "Sun, 06 Nov 1994 08:49:37 GMT" };
     std::vector<std::string> date = { "Sun", ",", " ", "06", "Nov", "1994", "08:49:37", "GMT", "-", "Sunday", "94", "99", "x", ":" };
